@@ -22,6 +22,13 @@ def decorate(text, rnd):
     env = {'zero': 0, 'neg': -rnd.randint(1, 10 ** 12), 'big': 2 ** 63 - 1}
     for i in range(3):
         env[f's{i}'] = rnd.choice(NASTY)
+    # entries bearing the names of barectf's own default entries: the configured value is the one to state
+    if rnd.random() < 0.5:
+        env['domain'] = rnd.choice(['ust', 'kernel', 'my "domain"'])
+    if rnd.random() < 0.4:
+        env['tracer_name'] = 'my-tracer'
+    if rnd.random() < 0.4:
+        env['tracer_major'] = rnd.choice([0, 7, 42])
     cfg['trace']['environment'] = env
     for name, ck in (tt.get('clock-types') or {}).items():
         if rnd.random() < 0.7:
@@ -72,7 +79,7 @@ def walk_ints(struct_real, struct_md, path, fails):
                     fails.append(f'{path}.{n}: enumeration mappings configured {want_m}, metadata {got_m}')
 
 
-def oracle(cfg, md_text):
+def oracle(cfg, md_text, yaml_text=None):
     fails = []
     try:
         md = tsdl.parse(md_text)
@@ -85,8 +92,14 @@ def oracle(cfg, md_text):
     if (str(tt.uuid) if tt.uuid else None) != tr.get('uuid'):
         fails.append(f'trace uuid {tr.get("uuid")} != {tt.uuid}')
     env = md['env'] or {}
-    for k, v in cfg.trace.environment.items():
-        if k in ('barectf_gen_date',):
+    # what the user configured (the YAML document), not what the configuration object holds after barectf merged
+    # it with its own default entries: a configured entry must be stated with its configured value
+    configured = dict(cfg.trace.environment.items())
+    if yaml_text is not None:
+        doc = yaml.safe_load(yaml_text.split('\n', 1)[1])
+        configured = dict(configured, **((doc.get('trace') or {}).get('environment') or {}))
+    for k, v in configured.items():
+        if k in ('barectf_gen_date',) and (yaml_text is None or k not in ((yaml.safe_load(yaml_text.split('\n', 1)[1]).get('trace') or {}).get('environment') or {})):
             continue
         if env.get(k) != v:
             fails.append(f'environment entry {k}: configured {v!r}, metadata {env.get(k)!r}')
@@ -152,7 +165,7 @@ def run(c):
             continue
         done += 1
         mdt = barectf.CodeGenerator(cfg).generate_metadata_stream().contents
-        fails, md = oracle(cfg, mdt)
+        fails, md = oracle(cfg, mdt, text)
         if fails:
             nfail += 1
             if len(c.violations) < 5:
@@ -191,7 +204,7 @@ def replay(c, path):
     c.coverage.update({'obligations': 1, 'discharged': 1, 'checker_cmd': 'replay', 'samples': [path]})
     if 'config_yaml' in r:
         cfg = common.load_cfg(r['config_yaml'])
-        fails, _ = oracle(cfg, barectf.CodeGenerator(cfg).generate_metadata_stream().contents)
+        fails, _ = oracle(cfg, barectf.CodeGenerator(cfg).generate_metadata_stream().contents, r['config_yaml'])
         print(fails)
         if fails:
             c.violation(r)
